@@ -27,7 +27,7 @@ ASSUMPTIONS = [
     "link keys beyond the configured key-table size, fields a version cannot store (v4: frame counters, children below v9) and the EUI64 when it cannot be rewritten are excluded, as the statement says",
     "command payload schemas inside the NCP model are bellows' own tables",
 ]
-PROBES = ["eui64.rewritten_nv3", "eui64.not_rewritable", "eui64.same", "eui64.unknown", "hashed_tclk.given", "hashed_tclk.generated", "link_keys.some", "link_keys.over_capacity",
+PROBES = ["eui64.rewritten_nv3", "eui64.not_rewritable", "eui64.same", "eui64.custom_before", "eui64.unknown", "hashed_tclk.given", "hashed_tclk.generated", "link_keys.some", "link_keys.over_capacity",
           "children.some", "tc_address.unknown", "status_event_before_response", "token_api_missing", "mask_without_channel"]
 
 VERSIONS = list(range(4, 15))
@@ -54,12 +54,12 @@ class OsShim:
 def plan(tier):
     sweeps = []
     for V in VERSIONS:
-        for cap in range(4):
+        for cap in range(5 if V >= 9 else 4):
             for tmpl in range(4):
                 sweeps.append(("grid", {"V": V, "cap": cap, "tmpl": tmpl, "sched": False}))
     return {
         "sweeps": sweeps,
-        "exhaustive": "versions 4..14 x capability variant {NV3 restored-EUI64 token; token API but no such token; token API answers invalidCommand; plain} x 4 settings templates",
+        "exhaustive": "versions 4..14 x capability variant {NV3 restored-EUI64 token; token API but no such token; token API answers invalidCommand; plain; NV3 token already holding a custom EUI64 (v9+)} x 4 settings templates",
         "random": [("random", {}, 1)],
         "runs": 250 if tier == "quick" else None,
         "budget_s": 60 if tier == "quick" else 900,
@@ -136,7 +136,7 @@ def run(scenario, params, tape, detail=False):
     import zigpy.zdo.types  # noqa: F401
 
     V = params["V"] if "V" in params else VERSIONS[tape.draw(len(VERSIONS), "V")]
-    cap = params["cap"] if "cap" in params else tape.draw(4, "cap")
+    cap = params["cap"] if "cap" in params else tape.draw(5, "cap")
     rig = e3app.AppRig(tape, version=V, sched=params.get("sched", True))
     loop, ncp = rig.loop, rig.ncp
     ncp.preform()  # the NCP has an old network that the write must replace
@@ -147,8 +147,13 @@ def run(scenario, params, tape, detail=False):
 
     # capabilities
     if V >= 9:
-        if cap == 0:
+        if cap in (0, 4):
             ncp.nv3_restored_token = 0xE12A if V < 13 or tape.draw(2, "tok") == 0 else 0x1E12A
+            if cap == 4:
+                # the stick already runs with a custom EUI64 from an earlier restore (NV3 token set)
+                ncp.nv3[(ncp.nv3_restored_token, 0)] = bytes([0xEE, 1, 2, 3, 4, 5, 6, 0x10])
+                ncp._apply_eui64()
+                probe("eui64.custom_before")
         elif cap == 2:
             ncp.has_token_data = False
             probe("token_api_missing")
@@ -249,12 +254,12 @@ def run(scenario, params, tape, detail=False):
             if got_children != f["children"]:
                 viol.append(("C14.rt", "children", f"{tag}: child table read back as {got_children}, written {f['children']}"))
         # EUI64 (only when it could be rewritten)
+        fac = bytes(ncp.factory_eui64)
+        rewritable = ncp.nv3_restored_token is not None and ncp.has_token_data
         if f["node_ieee"] is None:
             probe("eui64.unknown")
-        elif f["node_ieee"] == st["eui_before"]:
-            probe("eui64.same")
-        elif ncp.nv3_restored_token is not None and ncp.has_token_data:
-            probe("eui64.rewritten_nv3")
+        elif rewritable or f["node_ieee"] == fac:
+            probe("eui64.same" if f["node_ieee"] == st["eui_before"] else "eui64.rewritten_nv3")
             ne("ieee", "node IEEE address", bytes(nd.ieee.serialize()), f["node_ieee"])
         else:
             probe("eui64.not_rewritable")
@@ -276,13 +281,14 @@ def run(scenario, params, tape, detail=False):
             if bm & fixed != fixed:
                 viol.append(("C14.sec", "fixed-flags", f"{tag}: security bitmask {bm:#06x} lacks some of HAVE_PRECONFIGURED_KEY|REQUIRE_ENCRYPTED_KEY|TRUST_CENTER_GLOBAL_LINK_KEY|HAVE_NETWORK_KEY|NO_FRAME_COUNTER_RESET"))
             # the TC address is supplied unless the settings carried none and the EUI64 was rewritten (otherwise bellows fills in the NCP's own address)
-            rewritten = f["node_ieee"] is not None and f["node_ieee"] != st["eui_before"] and ncp.nv3_restored_token is not None and ncp.has_token_data
+            # (the write starts by clearing the custom EUI64, so "the NCP's own address" is the factory one from then on)
+            rewritten = f["node_ieee"] is not None and f["node_ieee"] != fac and rewritable
             tc_supplied = not (rewritten and f["tc_unknown"])
             field = bytes(s.preconfiguredTrustCenterEui64.serialize())
             if bool(bm & 0x0040) != tc_supplied:
                 viol.append(("C14.sec", "tc-eui64-flag", f"{tag}: HAVE_TRUST_CENTER_EUI64 is {'set' if bm & 0x0040 else 'clear'} although a trust-centre address was {'supplied' if tc_supplied else 'not supplied'} (field {field.hex()})"))
             if tc_supplied:
-                want_tc = f["node_ieee"] if (rewritten or (f["node_ieee"] == st["eui_before"] and not f["tc_unknown"])) else st["eui_before"]
+                want_tc = f["node_ieee"] if rewritten else fac
                 if field != want_tc:
                     viol.append(("C14.sec", "tc-eui64-value", f"{tag}: security state carries trust-centre address {field.hex()}, expected {want_tc.hex()}"))
             else:
